@@ -98,6 +98,44 @@ def run(tier, replay=None):
             ndiff, i, ops[i][:50], st, model[i][:300] if i < len(model) else "-", impl[i][:300]))
         if not viol:
             common.write_replay(PROP, "divergence", "# model: %s\n# implementation: %s\n%s\n" % (model[i][:1500] if i < len(model) else "-", impl[i][:1500], "\n".join(ops[st:i + 1])))
+    # ---- portamento (implementation only: the model does not reproduce the floating-point end of a glide): legato notes gliding next to
+    # plain held notes, ticked through the end of the glide; the invariant monitor (I4: the gliding counter) runs on every snapshot
+    port_ops = 0
+    if not replay:
+        rng = ctx.rng
+        phs = []
+        for i in range(8 if tier == "quick" else 80):
+            h = ["new 65536 1", "bank " + synth_gen.test_bank(rng, blanks=0)[0].hex(), "cc 0 65 127", "cc 0 5 %d" % rng.choice([1, 40, 80, 127])]
+            keys = rng.sample([48, 55, 60, 64, 67, 72, 79], 4)
+            h += ["on 0 %d 100" % keys[0], "gen %d" % rng.choice([64, 1024])]
+            for k in keys[1:]:
+                h.append("on 0 %d 100" % k)                    # legato: the earlier keys are still down
+                h += ["gen %d" % rng.choice([64, 656, 2048, 8192]) for _ in range(rng.choice([1, 3]))]
+                if rng.random() < 0.4:
+                    h.append("off 0 %d" % rng.choice(keys))
+                if rng.random() < 0.3:
+                    h.append("cc 0 65 %d" % rng.choice([0, 127]))
+            h += ["gen 65536", "gen 65536", "pb 0 9000", "gen 1024"] + ["off 0 %d" % k for k in keys] + ["gen 4096"]
+            phs.append(h)
+        pops = [o for h in phs for o in h]
+        pimpl, _ = common.run_impl("synth", "\n".join(pops) + "\n", stateless=False)
+        port_ops = len(pops)
+        st = 0
+        pv = 0
+        for i, (o, r) in enumerate(zip(pops, pimpl)):
+            if o.startswith("new "):
+                st = i
+            why = None
+            if r.startswith("fault="):
+                why = "implementation fault %s" % r[:160]
+            elif r.startswith("ret="):
+                f = synth_gen.inv_failures(synth_gen.parse_snapshot(r))
+                why = f[0] if f else None
+            if why and pv < 2:
+                pv += 1
+                nfail += 1
+                ctx.violate("monitor", "# %s (portamento history)\n# implementation snapshot after the last op: %s\n%s\n" % (why, r[:600], "\n".join(x if len(x) < 200 else x[:60] + "..." for x in pops[st:i + 1])))
+    ctx.cov["portamento_ops_impl_only"] = port_ops
     kinds = {}
     for o in ops:
         k = o.split()[0] + ((":" + o.split()[2]) if o.startswith("cc ") else "")
